@@ -1630,3 +1630,103 @@ def enumunique(repo, schema=None, sites=None):
                     uniq[1].node.lineno, uniq[1].name)
     res.analysed = [HG]
     return res
+
+
+def virtnarrow(repo):
+    """R-VIRTNARROW (C03): the view class generated for a write-through virtual field declares its write methods with
+    the field's own C++ type (`int32_t` ... `uint64_t`), so an integer argument of another type is converted at the
+    call, before `CouldWriteValue` can look at it: `a1().TryToWrite(int64_t{4294967301})` stored 5 and `e0().TryToWrite(-1)`
+    stored 0xffffffff.  As for UIntView / IntView / BcdView (R-NARROWARG), the value the caller wrote has to reach a
+    check unconverted: (a) the write-method template carries a placeholder that the generator fills, for every
+    integer-typed field, from an overload template; (b) that template declares CouldWriteValue, TryToWrite and Write
+    over a template parameter type, and the first two test the representability of the argument (a call of one
+    static predicate over the unconverted argument) before any `static_cast` to the field's type; (c) the predicate
+    compares against numeric_limits of the field's type on both sides (negative and non-negative)."""
+    res = RuleResult("R-VIRTNARROW")
+    tp = Templates(repo)
+    wname = "structure_single_virtual_field_write_methods"
+    if wname not in tp:
+        raise AnalysisError(f"template {wname} vanished")
+    wt = re.sub(r"//[^\n]*", "", tp[wname]["text"])
+    hg = repo.mod("compiler/back_end/cpp/header_generator.py")
+    # which placeholder of the write template is filled from another template under an `integer` test?
+    filler = None
+    for f in hg.top_funcs():
+        for n in walk_no_nested_funcs(f.node):
+            if isinstance(n, ast.If) and "integer" in ast.unparse(n.test) and "which_type" in ast.unparse(n.test):
+                for a in ast.walk(n):
+                    if isinstance(a, ast.Assign) and isinstance(a.targets[0], ast.Name) and isinstance(a.value, ast.Call) \
+                            and (call_name(a.value) or "").endswith("format_template") and a.value.args:
+                        tname = ast.unparse(a.value.args[0]).split(".")[-1]
+                        var = a.targets[0].id
+                        # is `var` handed to the write template?
+                        for c in walk_no_nested_funcs(f.node):
+                            if isinstance(c, ast.Call) and (call_name(c) or "").endswith("format_template") and c.args \
+                                    and ast.unparse(c.args[0]).endswith(wname):
+                                for k in c.keywords:
+                                    if isinstance(k.value, ast.Name) and k.value.id == var:
+                                        filler = (k.arg, tname, n.lineno)
+    res.instances += 1
+    if filler is None or ("${" + filler[0] + "}") not in tp[wname]["text"]:
+        res.add(f"{TEMPLATES}|{wname}|no-integer-overloads", "the write methods of a virtual field take the field's own C++ type only and the "
+                "generator adds no overloads for integer-typed fields: an out-of-range argument is narrowed at the call "
+                "(`TryToWrite(int64_t{4294967301})` on an int32_t field stores 5) before CouldWriteValue sees it",
+                TEMPLATES, tp[wname]["line"], wname)
+        res.analysed = [TEMPLATES, hg.rel]
+        return res
+    oname = filler[1]
+    if oname not in tp:
+        raise AnalysisError(f"template {oname} named by the generator does not exist")
+    ot = re.sub(r"//[^\n]*", "", tp[oname]["text"])
+    ot = re.sub(r"/\*\*/", "", ot)
+    # split into member functions: `template <...> <ret> Name(<one parameter>) {body}`
+    meths = {}
+    for mm in re.finditer(r"template\s*<((?:[^<>]|<(?:[^<>]|<(?:[^<>]|<[^<>]*>)*>)*>)*)>\s*(?:static\s+constexpr\s+)?(bool|void)\s+(\w+)\s*\(\s*(\w+)\s+(\w+)\s*\)\s*\{", ot):
+        start = mm.end()
+        depth, i = 1, start
+        while i < len(ot) and depth:
+            depth += {"{": 1, "}": -1}.get(ot[i], 0)
+            i += 1
+        meths[mm.group(3)] = (mm.group(1), mm.group(4), mm.group(5), ot[start:i - 1])
+    pred = None
+    for meth in ("CouldWriteValue", "TryToWrite", "Write"):
+        res.instances += 1
+        if meth not in meths:
+            res.add(f"{TEMPLATES}|{oname}|{meth}|missing", f"{oname} has no templated {meth}: the argument of the non-template "
+                    f"{meth}(${{logical_type}}) is narrowed at the call", TEMPLATES, tp[oname]["line"], oname)
+            continue
+        tparams, ptype, pname, body = meths[meth]
+        if not re.search(r"typename\s+" + re.escape(ptype) + r"\b", tparams):
+            res.add(f"{TEMPLATES}|{oname}|{meth}|not-templated", f"{oname}: {meth} takes `{ptype}`, which is not a template parameter",
+                    TEMPLATES, tp[oname]["line"], oname)
+            continue
+        if meth == "Write":
+            if not re.search(r"\bTryToWrite\s*\(\s*" + re.escape(pname) + r"\s*\)", body):
+                res.add(f"{TEMPLATES}|{oname}|Write|forward", f"{oname}: Write does not hand its unconverted argument to TryToWrite",
+                        TEMPLATES, tp[oname]["line"], oname)
+            continue
+        cast = re.search(r"static_cast\s*<", body)
+        chk_ = re.search(r"\b(\w+)\s*\(\s*" + re.escape(pname) + r"\s*\)\s*&&", body)
+        if not chk_ or (cast and chk_.start() > cast.start()):
+            res.add(f"{TEMPLATES}|{oname}|{meth}|unchecked-cast", f"{oname}: {meth} converts its argument to the field's type without first "
+                    "testing that it is representable (`Fits(v) && ...static_cast...`)", TEMPLATES, tp[oname]["line"], oname)
+        else:
+            pred = pred or chk_.group(1)
+            if chk_.group(1) != pred:
+                res.add(f"{TEMPLATES}|{oname}|{meth}|predicate", f"{oname}: {meth} uses `{chk_.group(1)}`, CouldWriteValue uses `{pred}`",
+                        TEMPLATES, tp[oname]["line"], oname)
+    res.instances += 1
+    if pred and pred in meths:
+        body = meths[pred][3]
+        pn = meths[pred][2]
+        ok = re.search(re.escape(pn) + r"\s*<\s*0\s*\?", body) and "is_signed" in body and re.search(r">=\s*static_cast<\s*::std::int64_t>\(\s*::std::numeric_limits<\s*\$\{logical_type\}>::min\(\)", body) \
+            and re.search(r"<=\s*static_cast<\s*::std::uint64_t>\(\s*::std::numeric_limits<\s*\$\{logical_type\}>::max\(\)", body)
+        if not ok:
+            res.add(f"{TEMPLATES}|{oname}|{pred}|shape", f"{oname}: the representability predicate `{pred}` no longer has the shape "
+                    "`v < 0 ? (signed && int64(v) >= int64(min)) : uint64(v) <= uint64(max)` over numeric_limits of the field's type",
+                    TEMPLATES, tp[oname]["line"], oname)
+    elif not res.findings:
+        res.add(f"{TEMPLATES}|{oname}|predicate|missing", f"{oname}: no representability predicate found", TEMPLATES, tp[oname]["line"], oname)
+    res.samples = [f"{wname}: ${{{filler[0]}}} <- {oname} for integer fields (header_generator.py:{filler[2]}); predicate {pred}"]
+    res.analysed = [TEMPLATES, hg.rel]
+    return res
